@@ -39,6 +39,12 @@ thread_local! {
     static READS: Cell<u64> = const { Cell::new(0) };
 }
 
+/// Harness side: the clock reads made so far at this instant were the harness's
+/// own (a reference model replaying operations), not a spin of the code under test.
+pub fn forgive_reads() {
+    READS_AT_INSTANT.with(|c| c.set(0));
+}
+
 impl Instant {
     /// # Panics
     ///
